@@ -296,6 +296,12 @@ class Builder:
                     b = self.base_var(k.value)
                     if b is not None:
                         self.fn.stmts.append(("write", b))
+                elif k.arg == "inplace" and isinstance(f, ast.Attribute) and not (isinstance(k.value, ast.Constant) and k.value.value is False):
+                    # pandas: `frame.reset_index(inplace=True)`, `.dropna(inplace=True)`, `.sort_values(inplace=True)`, … modify the
+                    # receiver (a flag that is not the literal False is taken as possibly true)
+                    b = self.base_var(f.value)
+                    if b is not None:
+                        self.fn.stmts.append(("write", b))
             for nm in names:
                 for (callee_params, written, _returns, _rf) in self.summaries.get(nm, []):
                     if not written:
